@@ -107,11 +107,28 @@ def target(env, name, seed):
     else:
         s = env.ips.PhaseScreenKolmogorov(2, P["delta"], P["r0"], P["L0"], random_seed=seed, stencil_length_factor=1)
     out = [numpy.asarray(s.scrn, dtype=object).copy()]
-    for _ in range(2):
+    for i in range(2):
+        _live_tick(env, i)
         out.append(numpy.asarray(s.add_row(), dtype=object).copy())
     return out
 
 
+_live = [False]
+
+
+def _live_tick(env, i):
+    """with the op "live-others" in the history: the other screen objects stay in use while the target adds its rows
+    (each adds a row between two rows of the target; one more instance is constructed after the first row)"""
+    if not _live[0]:
+        return
+    for o in list(_keep):
+        o.add_row()
+    if i == 1:
+        o = env.ips.PhaseScreenKolmogorov(2, PARAMS["delta"], PARAMS["r0"], PARAMS["L0"], random_seed=None, stencil_length_factor=1)
+        _keep.append(o)
+
+
+LIVE = "live-others"
 OPS = ["other-vk", "other-fried-row", "global-seed", "global-draw", "ft-other-l0", "ftsh-other", "same-seed-other-instance"]
 _keep = []
 
@@ -140,6 +157,8 @@ def do_op(env, op, k):
         o = env.ips.PhaseScreenVonKarman(2, P["delta"], P["r0"], P["L0"], random_seed=P["seed"], n_columns=2)
         o.add_row()
         _keep.append(o)
+    elif op == LIVE:
+        _live[0] = True
 
 
 def serialise(arrs):
@@ -192,6 +211,7 @@ def real_run(tname, ops, vals):
             o = ips.PhaseScreenVonKarman(8, vals["delta"], vals["r0"], vals["L0"], random_seed=vals["seed"], n_columns=2)
             o.add_row()
             keep.append(o)
+    live = LIVE in ops
     seed = vals["seed"]
     if tname == "ft":
         out = [ps.ft_phase_screen(vals["r0"], 8, vals["delta"], vals["L0"], vals["l0"], seed=seed)]
@@ -201,7 +221,12 @@ def real_run(tname, ops, vals):
         s = ips.PhaseScreenVonKarman(8, vals["delta"], vals["r0"], vals["L0"], random_seed=seed, n_columns=2) if tname == "vk" else \
             ips.PhaseScreenKolmogorov(8, vals["delta"], vals["r0"], vals["L0"], random_seed=seed, stencil_length_factor=1)
         out = [numpy.array(s.scrn)]
-        for _ in range(3):
+        for i in range(3):
+            if live:
+                for o in list(keep):
+                    o.add_row()
+                if i == 1:
+                    keep.append(ips.PhaseScreenKolmogorov(8, vals["delta"], vals["r0"], vals["L0"], random_seed=None, stencil_length_factor=1))
             out.append(numpy.array(s.add_row()))
     return [hashlib.sha256(numpy.ascontiguousarray(a, dtype=float).tobytes()).hexdigest() for a in out]
 
@@ -247,6 +272,7 @@ def case_history(ctx, tname, ops):
 
     def go():
         del _keep[:]
+        _live[0] = False
         with env.ctxmgr():
             for k, op in enumerate(ops):
                 do_op(env, op, k)
@@ -356,8 +382,11 @@ def build_cases(tier):
     else:
         progs += [p for p in itertools.product(OPS, repeat=2)]
         progs += [("ft-other-l0", "other-vk", "global-seed"), ("same-seed-other-instance", "other-fried-row", "ftsh-other"), ("global-draw", "global-seed", "ft-other-l0")]
+    live_progs = [("other-vk", LIVE), ("other-fried-row", LIVE), ("same-seed-other-instance", LIVE)]
+    if tier != "quick":
+        live_progs += [("other-vk", "other-fried-row", LIVE), (LIVE,), ("global-seed", "other-vk", LIVE)]
     for t in targets:
-        for p in progs:
+        for p in progs + (live_progs if t in ("vk", "fried") else []):
             cases.append(("%s/history=%s" % (t, "+".join(p) or "none"), case_history, dict(tname=t, ops=list(p))))
         cases.append(("%s/differ" % t, case_differ, dict(tname=t)))
     return cases
